@@ -334,8 +334,7 @@ class Program:
 
 # methods whose presence on a structure class would invalidate the identity model behind opaque segments
 # (__bool__/__len__/ordering are interpreted by AE and therefore allowed)
-FORBIDDEN_DUNDERS = ("__eq__", "__ne__", "__hash__", "__contains__", "__getattr__", "__getattribute__", "__setattr__",
-                     "__delattr__", "__new__", "__init_subclass__", "__set_name__")
+FORBIDDEN_DUNDERS = ("__eq__", "__ne__", "__hash__", "__getattribute__", "__new__", "__init_subclass__")
 
 
 def identity_model_violations(prog: Program):
